@@ -231,6 +231,31 @@ static std::string trace_str() {
 
 static unsigned alive_mask() { unsigned m = 0; for (int r = 0; r < g.nrt; r++) if (g.R[r].created && !g.R[r].finished) m |= 1u << r; return m; }
 
+// The Scheduler is given this forwarding proxy of the real loop; it only adds a main-context call in front of every deferred call the
+// scheduler queues (as if the main context had queued its own deferred call just before), everything else is the real loop.
+struct TapLoop : public event::Loop {
+  event::Loop *real; std::function<void()> hook;
+  explicit TapLoop(event::Loop *r) : real(r) {}
+  void runLoop(Mode m) override { real->runLoop(m); }
+  void exitLoop(const std::chrono::milliseconds &w) override { real->exitLoop(w); }
+  bool isInLoopThread() override { return real->isInLoopThread(); }
+  bool isRunning() const override { return real->isRunning(); }
+  RunId runInLoop(Func &&f, const std::string &w) override { return real->runInLoop(std::move(f), w); }
+  RunId runInLoop(const Func &f, const std::string &w) override { return real->runInLoop(f, w); }
+  RunId runNext(Func &&f, const std::string &w) override { Func g = std::move(f); return real->runNext([this, g] { if (hook) hook(); g(); }, w); }
+  RunId runNext(const Func &f, const std::string &w) override { Func g = f; return real->runNext([this, g] { if (hook) hook(); g(); }, w); }
+  RunId run(Func &&f, const std::string &w) override { return real->run(std::move(f), w); }
+  RunId run(const Func &f, const std::string &w) override { return real->run(f, w); }
+  bool cancel(RunId id) override { return real->cancel(id); }
+  event::FdEvent *newFdEvent(const std::string &w) override { return real->newFdEvent(w); }
+  event::TimerEvent *newTimerEvent(const std::string &w) override { return real->newTimerEvent(w); }
+  event::SignalEvent *newSignalEvent(const std::string &w) override { return real->newSignalEvent(w); }
+  event::Stat getStat() const override { return real->getStat(); }
+  void resetStat() override { real->resetStat(); }
+  WaterLine &water_line() override { return real->water_line(); }
+  void cleanup() override { real->cleanup(); }
+};
+
 // One real Loop per PROGRAM, one fresh Scheduler + primitives per RUN (program x main schedule). The loop is reused by the next
 // run of the same program only if its deferred-call queue is provably empty after the teardown pass; otherwise it is replaced.
 static event::Loop *g_loop = nullptr;
@@ -242,7 +267,8 @@ static RunOut run(const Prog &p, const std::vector<Act> &sched, bool want_text) 
   if (!g_loop) { g_loop = event::Loop::New(); shm->loops++; }
   event::Loop *loop = g_loop;
   {
-    Scheduler sch(loop); Channel<int> ch(sch); Mutex mu(sch); Semaphore sem(sch, p.param); Broadcast bc(sch);
+    TapLoop tap(loop);
+    Scheduler sch(&tap); Channel<int> ch(sch); Mutex mu(sch); Semaphore sem(sch, p.param); Broadcast bc(sch);
     Condition<int> cond(sch, p.param ? Condition<int>::Logic::kAny : Condition<int>::Logic::kAll);
     g.sch = &sch; g.ch = &ch; g.mu = &mu; g.sem = &sem; g.bc = &bc; g.cond = &cond;
     g.nrt = 0; g.NR = p.nr; g.sent = g.nrecv = 0; g.holders = 0; g.acq = g.rel = 0; g.init = p.param; g.any_logic = p.param != 0;
@@ -262,15 +288,14 @@ static RunOut run(const Prog &p, const std::vector<Act> &sched, bool want_text) 
       if (!sch.d_->routine_cabinet.empty()) viol("cleanup-left-routines-registered");
       model_check();
     };
-    // The main context acts from a deferred call that is first in every loop iteration (it is queued before the routines are created
-    // and re-queues itself before the scheduler's own deferred calls of that iteration run), i.e. at EVERY boundary between two scheduler
-    // rounds. runLoop(kOnce) cannot be used for this: leaving runLoop() drains all deferred calls, i.e. runs the scheduler until it is idle.
-    std::function<void()> driver = [&] {
-      shm->phase = PH_PASS;
-      if (!first) g.trace.push_back(0xff000000u);
-      first = false;
-      if (quiescent()) qcheck(); else model_check();
-      while (!tail && ai < sched.size() && sched[ai].k != A_PASS && !cleaned) {
+    // Where the main context acts. Leaving runLoop() drains all deferred calls (the scheduler runs until idle), so runLoop(kOnce) per step
+    // is too coarse. Instead the loop runs in kForever mode and the main context acts from deferred calls of that loop:
+    //  (1) `hook`  - immediately before every Scheduler::schedule() call that has something to run (= before every scheduler round),
+    //  (2) `idle`  - a deferred call re-queued in every loop iteration, acting when no routine is ready.
+    // A `pass` in a main schedule = let the next scheduler round happen.
+    bool done = false;
+    auto apply_actions = [&] {
+      while (ai < sched.size() && sched[ai].k != A_PASS && !cleaned) {
         const Act &a = sched[ai++];
         shm->phase = PH_ACTION; shm->transitions++;
         if (a.k == A_RESUME) { g.mainmask |= 1; if (g.R[a.r].created) sch.resume(g.R[a.r].tok); }
@@ -279,16 +304,40 @@ static RunOut run(const Prog &p, const std::vector<Act> &sched, bool want_text) 
         g.trace.push_back(0xfe000000u | a.k << 8 | a.r);
         shm->phase = PH_PASS;
       }
-      if (cleaned) { out.alive_at[0] = 0; loop->exitLoop(); return; }
-      if (ai < sched.size()) { ai++; npass++; shm->transitions++; loop->runNext(driver); return; }   // a `pass`: let one scheduler round happen
-      tail = true;                                                                                 // schedule used up: go on until idle
-      out.alive_at[k] = (uint8_t)alive_mask();
-      if (quiescent() || npass >= MAXPASS) { loop->exitLoop(); return; }
-      k++; npass++; shm->transitions++; loop->runNext(driver);
     };
-    loop->runNext(driver);
+    auto finish = [&] { done = true; loop->exitLoop(); };
+    tap.hook = [&] {
+      if (done || quiescent()) return;                 // a schedule() call with nothing to run is not a point
+      shm->phase = PH_PASS;
+      if (!first) g.trace.push_back(0xff000000u);
+      first = false;
+      model_check();
+      if (!tail) apply_actions();
+      if (cleaned) { out.alive_at[0] = 0; finish(); return; }
+      if (!tail && ai < sched.size()) { ai++; npass++; shm->transitions++; return; }   // `pass`: the round that follows
+      tail = true; out.alive_at[k] = (uint8_t)alive_mask();
+      if (npass >= MAXPASS) { finish(); return; }
+      k++; npass++; shm->transitions++;
+    };
+    std::function<void()> idle = [&] {
+      if (done) return;
+      if (!quiescent()) { loop->runNext(idle); return; }
+      shm->phase = PH_PASS;
+      if (!first) g.trace.push_back(0xff000000u);
+      first = false;
+      qcheck();
+      for (;;) {
+        if (!tail) apply_actions();
+        if (cleaned) { out.alive_at[0] = 0; finish(); return; }
+        if (!quiescent()) { loop->runNext(idle); return; }                        // an action made a routine ready: `hook` goes on
+        if (!tail && ai < sched.size()) { ai++; continue; }                       // a `pass` with nothing to run
+        tail = true; out.alive_at[k] = (uint8_t)alive_mask(); finish(); return;
+      }
+    };
+    loop->runNext(idle);
     for (int r = 0; r < p.nr; r++) spawn(p.s[r]);
     loop->runLoop(event::Loop::Mode::kForever);
+    tap.hook = nullptr;
     if (!cleaned && !quiescent()) viol("no-quiescence-within-40-passes");
     out.tail_passes = k; out.cleaned = cleaned;
     // outcome class of the idle state reached (before the final cleanup)
